@@ -352,6 +352,9 @@ RULE = ("every starting schema {fresh; schema_migrations recorded up to k = 1..N
 from vmc.tables import _ROUND6 as _R6  # noqa: E402
 
 RULE += _R6["C28"]
+from vmc.tables import _ROUND7 as _R7  # noqa: E402
+
+RULE += _R7["C28"]
 
 
 
